@@ -505,3 +505,138 @@ func compareWithModel(cfg, buf int, cs []liveChunk, m *Model, v *Verdict) (msgs 
 	}
 	return msgs, true
 }
+
+// ---------- sysex length sweeps (buffers above the default; boundary and all lengths) ----------
+
+// sysexSweepLengths: total message lengths (F0 .. F7 inclusive) to try against buffer size buf.
+// quick: powers of two, 3*2^k, 1024*1.5^j and the buffer size, each -1/0/+1; thorough: every length up to buf+2.
+func sysexSweepLengths(buf int, tier string) []int {
+	seen := map[int]bool{}
+	var out []int
+	add := func(n int) {
+		if n >= 2 && n <= buf+2 && !seen[n] {
+			seen[n] = true
+			out = append(out, n)
+		}
+	}
+	if tier == "thorough" {
+		for n := 2; n <= buf+2; n++ {
+			add(n)
+		}
+		return out
+	}
+	for k := 2; k <= 17; k++ {
+		for d := -1; d <= 1; d++ {
+			add(1<<k + d)
+			add(3<<k + d)
+		}
+	}
+	for x := 1024; x < 1<<17; x += x / 2 {
+		for d := -1; d <= 1; d++ {
+			add(x + d)
+		}
+	}
+	for d := -3; d <= 2; d++ {
+		add(buf + d)
+	}
+	return out
+}
+
+// sysexWire: channel message, sysex of total length n, channel message (the bracketing messages show that the
+// decoder is in step before and after)
+func sysexWire(r *Rng, n int) []wireByte {
+	var w []wireByte
+	put := func(m []byte) {
+		for j, b := range m {
+			wb := wireByte{b: b, sxStart: j == 0 && b == 0xF0}
+			if j == len(m)-1 {
+				wb.complete = m
+			}
+			w = append(w, wb)
+		}
+	}
+	put([]byte{0x90 | byte(r.Intn(16)), byte(r.Intn(128)), byte(1 + r.Intn(127))})
+	sx := make([]byte, n)
+	sx[0], sx[n-1] = 0xF0, 0xF7
+	for i := 1; i < n-1; i++ {
+		sx[i] = byte(r.Intn(128))
+	}
+	put(sx)
+	put([]byte{0x80 | byte(r.Intn(16)), byte(r.Intn(128)), byte(r.Intn(128))})
+	return w
+}
+
+// genSysexSweep emits, for a few buffer sizes above the default, one stream per length of sysexSweepLengths.
+func genSysexSweep(r *Rng, tier string, emit func(buf int, w []wireByte)) {
+	bufs := []int{r.Range(1100, 1500), r.Range(2400, 3600)}
+	if tier == "thorough" {
+		bufs = []int{r.Range(1100, 1500), r.Range(2400, 3600), 0}
+	}
+	for _, buf := range bufs {
+		eff := buf
+		if eff == 0 {
+			eff = 1024
+		}
+		for _, n := range sysexSweepLengths(eff, tier) {
+			emit(buf, sysexWire(r, n))
+		}
+	}
+}
+
+// "live.big": sysex too long for the Lean model's quadratic list appends; implementation vs reference receiver only.
+// live.big buf=<B> len=<n> mode=<chunking 0 whole / 1 blocks of 4096 / 2 blocks of 333> seed=<k>
+func bigSysexOps(r *Rng, tier string) []string {
+	var ops []string
+	bufs := []int{70000}
+	if tier == "thorough" {
+		bufs = []int{70000, 140000, 1 << 20}
+	}
+	for _, buf := range bufs {
+		lens := []int{32767, 32768, 32769, 65534, 65535, 65536, 65537, 66000, buf - 1, buf, buf + 1}
+		if buf > 140000 {
+			lens = append(lens, 131071, 131072, 131073, 1<<20-1, 1<<20, 1<<20+1)
+		}
+		for _, n := range lens {
+			ops = append(ops, fmt.Sprintf("live.big buf=%d len=%d mode=%d seed=%d", buf, n, r.Intn(3), r.Intn(1<<20)))
+		}
+	}
+	return ops
+}
+
+func runBigSysex(op string, v *Verdict) {
+	f := fields(op)
+	var buf, n, mode, seed int
+	fmt.Sscanf(f["buf"], "%d", &buf)
+	fmt.Sscanf(f["len"], "%d", &n)
+	fmt.Sscanf(f["mode"], "%d", &mode)
+	fmt.Sscanf(f["seed"], "%d", &seed)
+	r := NewRng(uint64(seed))
+	w := sysexWire(r, n)
+	bs := make([]byte, len(w))
+	for i, wb := range w {
+		bs[i] = wb.b
+	}
+	var cs []liveChunk
+	step := []int{len(bs), 4096, 333}[mode%3]
+	for i := 0; i < len(bs); i += step {
+		j := i + step
+		if j > len(bs) {
+			j = len(bs)
+		}
+		cs = append(cs, liveChunk{int32(1 + i%3), bs[i:j]})
+	}
+	ref := refListen(7, buf, cs)
+	msgs, p := runListen(7, buf, cs)
+	if p != "" {
+		v.Oracle = append(v.Oracle, "live decoder panicked: "+p+" :: "+op)
+		return
+	}
+	if !sameLive(ref, msgs) {
+		msgs, _ = runListen(7, buf, cs)
+	}
+	if !sameLive(ref, msgs) {
+		v.Oracle = append(v.Oracle, fmt.Sprintf("sysex of %d bytes with buffer %d: listener received %d messages %s, the wire carried %d %s :: %s",
+			n, buf, len(msgs), short(showLive(msgs)), len(ref), short(showLive(ref)), op))
+	}
+	v.Tags = append(v.Tags, "big-sysex")
+}
